@@ -414,18 +414,25 @@ fn inject(rng: &mut Rng, root: &Path, b: &mut Built, kind: &str, prefix: &mut Ve
             suffix[dj].push_str(&format!("fragment Unused{serial} on {q} {{\n  zzNowhere{serial}\n}}\n"));
             f.stage = 8; f.files = vec![dfile];
         }
+        // run_generate meets generate-stage faults in this order: the two option errors (stage 9, no file to name), the
+        // printers (stage 10: a scalar without a TypeScript type, located), writing (stage 11: no file name for the map).
+        // The three option/output faults overwrite each other's configuration, so a project gets at most one of them.
+        "gen-missing-schema-output" | "gen-output-without-file-name" | "gen-emit-runtime-dts"
+            if b.proj.faults.iter().any(|x| matches!(x.kind.as_str(), "gen-missing-schema-output" | "gen-output-without-file-name" | "gen-emit-runtime-dts")) => { return false; }
         "gen-missing-schema-output" => { b.proj.gen.schema_output = None; b.proj.gen.module_specifier = None; f.stage = 9; }
-        "gen-output-without-file-name" => { b.proj.gen.schema_output = Some("generated/..".into()); b.proj.gen.emit_runtime = false; f.stage = 9; }
+        "gen-output-without-file-name" => { b.proj.gen.schema_output = Some("generated/..".into()); b.proj.gen.emit_runtime = false; f.stage = 11; }
         "gen-emit-runtime-dts" => { b.proj.gen.schema_output = Some("generated/schema.d.ts".into()); b.proj.gen.emit_runtime = true; f.stage = 9; }
         "gen-scalar-type-missing" => {
-            if b.proj.gen.schema_output.is_none() { b.proj.gen.schema_output = Some("generated/schema.d.ts".into()); b.proj.gen.emit_runtime = false; }
+            // (when the missing-output fault is there the configuration stays without output: that error comes first)
+            let no_output_fault = b.proj.faults.iter().any(|x| x.kind == "gen-missing-schema-output");
+            if b.proj.gen.schema_output.is_none() && !no_output_fault { b.proj.gen.schema_output = Some("generated/schema.d.ts".into()); b.proj.gen.emit_runtime = false; }
             // make sure there is a custom scalar, and configure no TypeScript type for any
             if b.proj.gen.scalars.is_empty() { b.proj.schema_files[sj].1.push_str(&format!("scalar Stamp{serial}\n")); }
             b.proj.gen.scalars.clear(); b.proj.gen.server_output = None;
             // the printer's error carries the position of the scalar definition (the first scalar without a type): one of the
             // files declaring a scalar has to be named
             f.files = b.proj.schema_files.iter().filter(|(_, t)| t.lines().any(|l| l.starts_with("scalar "))).map(|(n, _)| abs(root, n)).collect();
-            f.stage = 9;
+            f.stage = 10;
         }
         "cfg-unknown-plugin" => { b.proj.plugins.push(format!("no-such-plugin-{serial}")); f.stage = 0; }
         "cfg-invalid" => { b.proj.yaml_override = Some("schema: [\n".into()); f.stage = 0; }
@@ -776,14 +783,14 @@ fn main() {
             if cmds.is_empty() { faults.push(Fault { kind: "usage-no-command".into(), stage: 0, files: vec![], known: vec![], via: None }); }
             for c in &cmds {
                 match *c {
-                    "check" => { if state_resolved { faults.push(Fault { kind: "usage-check-after-command".into(), stage: 10, files: vec![], known: vec![], via: None }); } state_resolved = true; }
+                    "check" => { if state_resolved { faults.push(Fault { kind: "usage-check-after-command".into(), stage: 12, files: vec![], known: vec![], via: None }); } state_resolved = true; }
                     "generate" => { state_resolved = true; }
-                    _ => faults.push(Fault { kind: "usage-unknown-command".into(), stage: 10, files: vec![], known: vec![], via: None }),
+                    _ => faults.push(Fault { kind: "usage-unknown-command".into(), stage: 12, files: vec![], known: vec![], via: None }),
                 }
             }
             // generate-stage faults only count when generate runs
             let has_generate = cmds.iter().any(|c| *c == "generate");
-            faults.retain(|x| x.stage != 9 || has_generate);
+            faults.retain(|x| !(9..=11).contains(&x.stage) || has_generate);
             let spec_run = if faults.len() == p.faults.len() && faults.iter().zip(p.faults.iter()).all(|(a, b)| a.kind == b.kind) { spec.clone() }
                 else { format!("(mk_spec {} {})", coq_list(&faults, |f| format!("mk_fault {} {}", coq_n(f.stage as u64), cq_strs(&f.files))), cq_strs(&plan)) };
             let fmt_coq = match f { "human" => "Human", "json" => "Json", _ => "Rdjson" };
